@@ -19,6 +19,10 @@ form is covered by `C02_label_offset_field` (16-bit field, size = op code + post
 Consequences: an accepted program has an image (`C02_image_exists`); `C02_offset_full`, the position of every
 statement's bytes inside the image, without the size hypothesis of `C02_offset`.  Also here: `ORG SYM`
 (`C02_org_symbol`, `C02_org_final`).
+Batches 4 and 5 (EQU defined by an expression evaluated where it is used, `resolve` with fuel; EQU normalised only when
+numeric; FCC string cut out of the line as written; `orgOK`, `evalSyms` in `assemble`): every statement is unchanged
+and still holds for every input; added `C02_org_symbol_expr_translate`, the evaluated `C02_equ_expression_example` and
+`C02_fcc_as_written_example`, and `C02_fcc_chars_of_line`.
 -/
 import CoCoVerif.Lemmas.SizeAscii
 import CoCoVerif.Props.C02
@@ -353,9 +357,10 @@ private theorem isValueTypeErr_sound {r : R Value} (h : isValueTypeErr r = true)
   · cases h
 
 /-- the program is rejected; so is its line by `parse_line`; and `create_from_str` (string flag set, as for FCC)
-raises ValueTypeError on the operand text — as Python splits it (`'Ā'`) and as the model's ASCII scanner
-reassembles it (`' Ā'`, the quote, a blank, the rest taken for a comment): the string attempt fails on the wide
-character, and the text is no expression, pair, number or symbol either -/
+raises ValueTypeError on the operand text — `'Ā'`, which is what Python and (since fix d74c37d: the FCC string is
+cut out of the line as written) the model hand to it, and `' Ā'`, what the model's ASCII scanner used to reassemble
+(the quote, a blank, the rest taken for a comment): the string attempt fails on the wide character, and the text is
+no expression, pair, number or symbol either -/
 theorem C02_fcc_wide_counterexample_fixed (fs : Files) :
     assemble fs C02_wideWitness = .diag ∧ parseLine " FCC 'Ā'\n".toList = .diag ∧
     createV "'Ā'".toList true false false = .error .valueType ∧
@@ -601,8 +606,8 @@ theorem C02_org_symbol_translate {o : Operand} {row : Gen.InstrRow} {t : SymTab}
     ∃ o' p, resolveOperand o row t = .ok o' ∧ translateOperand o' row = .ok p ∧ p.address.int? = some n ∧
       p.address.isNumeric = true := by
   have hres : (Value.symbol name m).resolve t = numericOfInt n none .none := by
-    unfold Value.resolve
-    simp [ht, Value.isAddress, Value.isNumeric]
+    rw [resolve_symbol_of_get ht rfl]
+    simp [symPost, Value.isAddress, Value.isNumeric]
   have hex : ∃ v, numV n = .ok v := by
     unfold numV numericOfInt
     rw [if_neg (by omega)]
@@ -634,8 +639,8 @@ theorem C02_org_symbol_negative {o : Operand} {row : Gen.InstrRow} {t : SymTab} 
     (hv : o.value = .symbol name m) (ht : t.get? name = some (.numeric n hh mm true)) (hn0 : 0 < n) :
     ∃ o', resolveOperand o row t = .ok o' ∧ translateOperand o' row = .error .operandType := by
   have hres : (Value.symbol name m).resolve t = numericOfInt (-(n : Int)) none .none := by
-    unfold Value.resolve
-    simp [ht, Value.isAddress, Value.isNumeric]
+    rw [resolve_symbol_of_get ht rfl]
+    simp [symPost, Value.isAddress, Value.isNumeric]
   have hex : ∃ h1 m1, numericOfInt (-(n : Int)) none .none = .ok (.numeric n h1 m1 true) := by
     unfold numericOfInt
     rw [if_neg (by omega)]
@@ -722,5 +727,94 @@ private def orgSymbolCheck (a : Assembly) : Bool :=
 theorem C02_org_symbol :
     ∃ a, assemble [] C02_orgSymbolWitness = .ok a ∧ orgSymbolCheck a = true :=
   checkProgram_sound (by decide +kernel) []
+
+/-! ### after batches 4 and 5: EQU defined by an expression, FCC string as written -/
+
+/-- `ORG SYM` where `SYM` is an EQU defined by an expression (`S EQU $100+$100`; since fix 0f280be `get_symbol`
+evaluates it where it is used) whose value is the non-negative number `n`: as `C02_org_symbol_translate` -/
+theorem C02_org_symbol_expr_translate {o : Operand} {row : Gen.InstrRow} {t : SymTab} {name : Str} {m mm : Mode}
+    {e : Value} {n : Nat} {hh : Option Nat} (hk : o.kind = .pseudo) (hm : row.mnemonic = "ORG")
+    (hv : o.value = .symbol name m) (ht : t.get? name = some e) (he : e.isExpression = true)
+    (hr : resolveF t.length e t = .ok (.numeric n hh mm false)) (hn : n ≤ 65535) :
+    ∃ o' p, resolveOperand o row t = .ok o' ∧ translateOperand o' row = .ok p ∧ p.address.int? = some n ∧
+      p.address.isNumeric = true := by
+  have hres : (Value.symbol name m).resolve t = numericOfInt n none .none := by
+    rw [resolve_symbol_of_expr ht he, hr]
+    simp [symPost, Value.isAddress, Value.isNumeric]
+  have hex : ∃ v, numV n = .ok v := by
+    unfold numV numericOfInt
+    rw [if_neg (by omega)]
+    exact ⟨_, rfl⟩
+  obtain ⟨v, hv'⟩ := hex
+  obtain ⟨h1, m1, rfl, _⟩ := numV_shape hv'
+  refine ⟨{ o with value := .numeric n h1 m1 false }, { address := .numeric n h1 m1 false }, ?_, ?_, rfl, rfl⟩
+  · unfold resolveOperand
+    have e : (("ORG" : String) == "FCB" || ("ORG" : String) == "FDB" || ("ORG" : String) == "RMB" ||
+        ("ORG" : String) == "ORG") = true := by decide
+    simp only [hk, hm, e, if_true, hv, Value.isSymbol, Bool.true_or]
+    rw [hres]
+    unfold numV at hv'
+    rw [hv']
+    rfl
+  · unfold translateOperand
+    simp only [hk]
+    unfold translatePseudo
+    have e1 : (("ORG" : String) == "FCB") = false := by decide
+    have e2 : (("ORG" : String) == "FDB") = false := by decide
+    have e3 : (("ORG" : String) == "RMB") = false := by decide
+    have e4 : (("ORG" : String) == "ORG") = true := by decide
+    simp [hm, e1, e2, e3, e4, bind, Except.bind, pure, Except.pure, Value.isNumeric, Value.isNegative]
+
+/-- EQUs defined by expressions, one of another (`N EQU A+3`, `M EQU N*2`), used as immediate operand, RMB count, FCB /
+FDB value, inside an expression, and as the ORG address -/
+def C02_equExprExample : List Str :=
+  ["A EQU 2\n", "N EQU A+3\n", "M EQU N*2\n", "S EQU $100+$100\n", " ORG S\n", "L LDA #M\n", " RMB N\n", " FCB M\n",
+   " FDB M+1\n", " LDA M,X\n", " FDB L\n"].map String.toList
+
+private def equExprCheck (a : Assembly) : Bool :=
+  a.stmts.all (fun s => (stmtBytes s).map List.length == some s.pkg.size) &&
+  a.stmts.map (·.pkg.size) == [0, 0, 0, 0, 0, 2, 5, 1, 2, 2, 2] &&
+  a.origin.int? == some 0x200 &&
+  a.image == some [0x86, 0x0A, 0, 0, 0, 0, 0, 0x0A, 0x00, 0x0B, 0xA6, 0x0A, 0x02, 0x00]
+
+/-- the program is accepted, every statement emits `size` bytes, the sizes and the image are as the values of the
+expressions say (`M` = 10, `N` = 5, origin `$200`) -/
+theorem C02_equ_expression_example :
+    ∃ a, assemble [] C02_equExprExample = .ok a ∧
+      (∀ s ∈ a.stmts, (stmtBytes s).map List.length = some s.pkg.size) ∧
+      a.stmts.map (·.pkg.size) = [0, 0, 0, 0, 0, 2, 5, 1, 2, 2, 2] ∧ a.origin.int? = some 0x200 ∧
+      a.image = some [0x86, 0x0A, 0, 0, 0, 0, 0, 0x0A, 0x00, 0x0B, 0xA6, 0x0A, 0x02, 0x00] := by
+  obtain ⟨a, ha, hchk⟩ := checkProgram_sound (lines := C02_equExprExample) (check := equExprCheck)
+    (by decide +kernel) []
+  unfold equExprCheck at hchk
+  simp only [Bool.and_eq_true, List.all_eq_true, beq_iff_eq] at hchk
+  exact ⟨a, ha, hchk.1.1.1, hchk.1.1.2, hchk.1.2, hchk.2⟩
+
+/-- FCC strings with blanks, a semicolon, several blanks in a row (since fix d74c37d the string is cut out of the line
+as written), a comment behind the string -/
+def C02_fccWrittenExample : List Str :=
+  [" FCC 'A B'\n", " FCC /X;  Y/ ; note\n", " FCC \"a ; b\"  tail\n"].map String.toList
+
+private def fccWrittenCheck (a : Assembly) : Bool :=
+  a.stmts.all narrowB &&
+  a.stmts.all (fun s => (stmtBytes s).map List.length == some s.pkg.size) &&
+  a.stmts.map (·.pkg.size) == [3, 5, 5] &&
+  a.image == some [0x41, 0x20, 0x42, 0x58, 0x3B, 0x20, 0x20, 0x59, 0x61, 0x20, 0x3B, 0x20, 0x62]
+
+/-- every statement emits `size` bytes: one byte per character of the string as written, blanks and `;` included -/
+theorem C02_fcc_as_written_example :
+    ∃ a, assemble [] C02_fccWrittenExample = .ok a ∧ (∀ s ∈ a.stmts, NarrowString s) ∧
+      (∀ s ∈ a.stmts, (stmtBytes s).map List.length = some s.pkg.size) ∧
+      a.stmts.map (·.pkg.size) = [3, 5, 5] ∧
+      a.image = some [0x41, 0x20, 0x42, 0x58, 0x3B, 0x20, 0x20, 0x59, 0x61, 0x20, 0x3B, 0x20, 0x62] := by
+  obtain ⟨a, ha, hchk⟩ := checkProgram_sound (lines := C02_fccWrittenExample) (check := fccWrittenCheck)
+    (by decide +kernel) []
+  unfold fccWrittenCheck at hchk
+  simp only [Bool.and_eq_true, List.all_eq_true, beq_iff_eq] at hchk
+  exact ⟨a, ha, fun s hs => narrowB_sound (hchk.1.1.1 s hs), hchk.1.1.2, hchk.1.2, hchk.2⟩
+
+/-- the string of an FCC statement as parsed consists of characters of its line (no blank put in between any more) -/
+theorem C02_fcc_chars_of_line {l : Str} {s : Stmt} {x : Str} (h : parseLine l = .ok (some s))
+    (hx : s.operand.value = .str x) : ∀ ch ∈ x, ch ∈ l := parseLine_str_mem_line h hx
 
 end CoCo.Props
